@@ -64,7 +64,7 @@ Theorem C03_ok_only_if_normal :
   forall known hs e p m, let r := run_call known hs e p in
   final_status (r_out r) = Some (status_ok, m) ->
   (returned_normally (r_end r) = true \/
-   (exists m', In (SendTrailing status_ok m') (p_ops p)) \/
+   (exists m', In (SendTrailing status_ok m' false) (p_ops p)) \/
    (exists m', exit_exn (r_end r) = Some (EGRPC status_ok m'))) /\
   (server_streaming (e_card e) = false -> count_data (r_out r) = 1%nat).
 Proof. exact ok_only_if_normal. Qed.
@@ -111,6 +111,17 @@ Theorem C03_exception_status :
 Proof. exact exception_status. Qed.
 Print Assumptions C03_exception_status.
 
+(* ... in particular the handler's OWN asyncio.TimeoutError / StreamTerminatedError / ProtocolError, whatever
+   deadline the request carries (t is arbitrary), as long as that deadline has not fired *)
+Theorem C03_own_exception_is_unknown :
+  forall known hs e p t k, validate known hs = VAccept t -> t <> TExpired ->
+  let r := run_call known hs e p in
+  (r_end r = KFin (RaiseException k) \/ r_end r = KSwallowed CClose (RaiseException k)) ->
+  trail_done (r_pre r) = false -> cancel_done (r_pre r) = false ->
+  final_status (r_out r) = Some (2, Some internal_msg) /\ accepted (r_out r) = true.
+Proof. exact own_exception_is_unknown. Qed.
+Print Assumptions C03_own_exception_is_unknown.
+
 (* the deadline: DEADLINE_EXCEEDED and exactly one terminal, honoured or swallowed-then-anything *)
 Theorem C03_deadline_status :
   forall known hs e p t, validate known hs = VAccept t -> t <> TExpired ->
@@ -134,7 +145,7 @@ Theorem C03_explicit_status_stands :
   forall known hs e p t, validate known hs = VAccept t -> t <> TExpired ->
   let r := run_call known hs e p in
   trail_done (r_pre r) = true ->
-  exists st m, In (SendTrailing st m) (p_ops p) /\ final_status (r_out r) = Some (st, m).
+  exists st m, In (SendTrailing st m false) (p_ops p) /\ final_status (r_out r) = Some (st, m).
 Proof. exact explicit_status_stands. Qed.
 Print Assumptions C03_explicit_status_stands.
 
@@ -195,6 +206,19 @@ Theorem C03_refusal_is_silent :
   (forall s' out, cancel s = (s', out, RRefused) -> s' = s /\ out = []).
 Proof. exact refusal_is_silent. Qed.
 Print Assumptions C03_refusal_is_silent.
+
+(* a call that fails part-way (invalid user metadata, refused message, raising listener) sets no flag and
+   sends nothing terminal, so the exit path still answers (the programs of theorems (1)-(2) include these calls
+   and the paused transport: SendInitial/SendMessage/SendTrailing carry a `fails` flag, Pause is an op) *)
+Theorem C03_partway_failure_is_harmless :
+  forall c s,
+  (forall s' out r, do_send_initial s true = PDone s' out r -> s' = s /\ out = [] /\ r <> ROk) /\
+  (forall st m s' out r, do_send_trailing c s st m true = PDone s' out r -> s' = s /\ out = [] /\ r <> ROk) /\
+  (forall s' out r, do_send_message c s true = PDone s' out r ->
+     msg_done s' = msg_done s /\ trail_done s' = trail_done s /\ cancel_done s' = cancel_done s /\
+     count_data out = 0%nat /\ final_status out = None /\ r <> ROk).
+Proof. exact partway_failure_is_harmless. Qed.
+Print Assumptions C03_partway_failure_is_harmless.
 
 (* the constants and tables the model is instantiated with are the ones in /repo now *)
 Theorem C03_source_facts :
